@@ -45,3 +45,25 @@ Print Assumptions c11_race_free.
 Theorem c11_sequential_states_invariant : forall npre n, Inv (seq_state npre n).
 Proof. exact seq_state_inv. Qed.
 Print Assumptions c11_sequential_states_invariant.
+
+(* Push always completes once in-flight pushes are allowed to finish: a pusher inside the link..publish window needs two
+   unconditional steps of its own; with nobody in that window, a Push running alone returns after six steps, having
+   appended its value and counted it *)
+Theorem c11_push_completes : forall c i v,
+  Inv c -> nlinked (ths c) = 0 -> nth_error (ths c) i = Some Idle ->
+  let c' := run c (solo i (OpPush v) 6) in
+  hist c' = hist c ++ [(i, RPush)] /\ nth_error (ths c') i = Some Idle /\
+  q (sh c') = q (sh c) ++ [v] /\ len (sh c') = len (sh c) + 1.
+Proof. exact push_completes. Qed.
+Print Assumptions c11_push_completes.
+Theorem c11_linked_pusher_publishes : forall c i n v,
+  nth_error (ths c) i = Some (PushAdd n v) -> nth_error (ths (run c (solo i OpPop 2))) i = Some Idle.
+Proof. exact linked_pusher_publishes. Qed.
+Print Assumptions c11_linked_pusher_publishes.
+
+(* Pop returns false only if the list was empty at an instant of the call (the LEmpty entries of the log above replay
+   only on an empty FIFO) or it was overtaken by another Pop between its head load and its CAS *)
+Theorem c11_pop_busy_was_overtaken : forall c i h nx, Inv c -> nth_error (ths c) i = Some (PopCas h nx) ->
+  head (sh c) <> h -> (h < head (sh c))%nat.
+Proof. exact pop_busy_was_overtaken. Qed.
+Print Assumptions c11_pop_busy_was_overtaken.
